@@ -3,6 +3,7 @@
 VERIF="$(cd "$(dirname "$0")" && pwd)"
 TIER="${1:-quick}"; shift
 SEEDS="${@:-1}"
+mkdir -p "$VERIF/.build"
 "$VERIF/build.sh" > "$VERIF/.build/build.log" 2>&1 || { echo BUILD FAILED; tail -20 "$VERIF/.build/build.log"; exit 2; }
 for seed in $SEEDS; do
   for p in C01 C02 C03 C04 C05 C06 C07 C08 C09 C10 C11 C12 C13 C14 C15 C16 C17 C18; do
